@@ -1,0 +1,39 @@
+//! Verification hook (only compiled with `--cfg chalk_verif`): a deterministic,
+//! thread-local work counter shared by the solvers. The harness sets a limit before
+//! a solve; exceeding it panics with a fixed message, so that a runaway search is
+//! reported deterministically instead of by a wall-clock timeout.
+
+use std::cell::Cell;
+
+thread_local! {
+    static WORK: Cell<u64> = Cell::new(0);
+    static LIMIT: Cell<u64> = Cell::new(u64::MAX);
+}
+
+/// Message of the panic raised when the work limit is exceeded.
+pub const WORK_LIMIT_MESSAGE: &str = "chalk_verif: work limit exceeded";
+
+/// Resets the counter and installs a new limit (`u64::MAX` = unlimited).
+pub fn start(limit: u64) {
+    WORK.with(|w| w.set(0));
+    LIMIT.with(|l| l.set(limit));
+}
+
+/// Work units counted since the last `start`.
+pub fn work() -> u64 {
+    WORK.with(|w| w.get())
+}
+
+/// Counts one unit of work.
+pub fn tick() {
+    let n = WORK.with(|w| {
+        let n = w.get() + 1;
+        w.set(n);
+        n
+    });
+    if n > LIMIT.with(|l| l.get()) {
+        // disarm, so that unwinding code that calls back into a solver does not panic again
+        LIMIT.with(|l| l.set(u64::MAX));
+        panic!("{}", WORK_LIMIT_MESSAGE);
+    }
+}
